@@ -294,6 +294,26 @@ theorem crossSet_exact (m n k : Nat) (draws : List (Nat × Nat))
     simp only [b2i_false, rsum_zero]
   rw [h, hz, hdone]; simp
 
+/-- **the network returned by `RandomlySetCrossLinks`**, for every stream of in-range draws:
+symmetric and loop-free, equal to the input outside the cross block (in particular inside
+each group), its cross block is the new cross matrix, and that matrix holds exactly
+`number_cross_links` ones once the loop has finished. -/
+theorem crossSet_network (A : Adj) (nodes1 nodes2 : List Nat) (k : Nat) (draws : List (Nat × Nat))
+    (nd1 : NodupIdx nodes1) (nd2 : NodupIdx nodes2) (dis : ∀ x, x ∈ nodes1 → x ∉ nodes2)
+    (sym : ∀ a b, A a b = A b a) (lf : ∀ a, A a a = false)
+    (hd : ∀ d ∈ draws, d.1 < nodes1.length ∧ d.2 < nodes2.length) :
+    let R := crossSetRun k draws (fun _ _ => false) 0
+    let A' := overwrite A R.1 nodes1 nodes2
+    (∀ a b, A' a b = A' b a) ∧ (∀ a, A' a a = false) ∧
+    (∀ a b, ¬ (a ∈ nodes1 ∧ b ∈ nodes2) → ¬ (a ∈ nodes2 ∧ b ∈ nodes1) → A' a b = A a b) ∧
+    (∀ i j x y, nodes1[i]? = some x → nodes2[j]? = some y → A' x y = R.1 i j ∧ A' y x = R.1 i j) ∧
+    (R.2 = k → total R.1 nodes1.length nodes2.length = k) := by
+  obtain ⟨s1, s2⟩ := overwrite_simple A (crossSetRun k draws (fun _ _ => false) 0).1
+    nodes1 nodes2 nd1 nd2 dis sym lf
+  exact ⟨s1, s2, fun a b h1 h2 => overwrite_untouched A _ _ _ a b h1 h2,
+    fun i j x y hx hy => overwrite_block A _ _ _ nd1 nd2 dis i j x y hx hy,
+    fun hk => crossSet_exact _ _ k draws hd hk⟩
+
 /-! ## `_randomlyRewireCrossLinks`
 
 `CrossInv m n C links` (Lemmas/RandomB.lean): `links` lists the ones of the `m × n`
